@@ -132,6 +132,42 @@ pub fn mutants(seed: &[u8], m: &Value) -> Vec<Vec<u8>> {
     match op {
         "identity" => vec![seed.to_vec()],
         "eol" => vec![eol(seed)],
+        // numeric boundary substitution: the k-th maximal digit run of the seed (op number: each run in turn; op numbers: all
+        // runs at once) is replaced by the at-th special value
+        "number" | "numbers" => {
+            const SPECIAL: [&str; 24] = ["0", "1", "127", "128", "255", "256", "32767", "32768", "65535", "65536", "2147483647", "2147483648",
+                "4294967295", "4294967296", "9223372036854775807", "9223372036854775808", "18446744073709551615", "18446744073709551616",
+                "170141183460469231731687303715884105727", "340282366920938463463374607431768211456", "-1", "-9223372036854775808",
+                "00000000000000000000000000000001", "1e400"];
+            let sp = SPECIAL[(at.max(1) - 1) % SPECIAL.len()].as_bytes();
+            // digit runs
+            let mut runs: Vec<(usize, usize)> = vec![];
+            let mut i = 0;
+            while i < seed.len() {
+                if seed[i].is_ascii_digit() {
+                    let st = i;
+                    while i < seed.len() && seed[i].is_ascii_digit() { i += 1 }
+                    runs.push((st, i));
+                } else {
+                    i += 1;
+                }
+            }
+            if runs.is_empty() {
+                vec![]
+            } else if op == "numbers" {
+                let mut v = vec![];
+                let mut last = 0;
+                for (a, b2) in runs.iter() {
+                    v.extend_from_slice(&seed[last..*a]);
+                    v.extend_from_slice(sp);
+                    last = *b2;
+                }
+                v.extend_from_slice(&seed[last..]);
+                vec![v]
+            } else {
+                runs.iter().map(|(a, b2)| [&seed[..*a], sp, &seed[*b2..]].concat()).collect()
+            }
+        }
         // structure-level repetition: the seed n times over (many parts / lines / elements), and the leading quarter,
         // half or three quarters of it n times followed by the whole seed (class digit9 / letter / e selects the cut)
         "repeat_seed" => vec![seed.repeat(at), [seed.repeat(at), seed[..seed.len() / 2].to_vec()].concat()],
